@@ -24,6 +24,9 @@ EXPECTED = ["limits_min", "limits_max", "limits_lowest", "limits_epsilon", "limi
             "macro_HALF_MAX_EXP", "macro_HALF_DENORM_MIN_10_EXP", "macro_HALF_MAX_10_EXP",
             "limits_is_specialized", "limits_is_integer", "limits_is_exact", "limits_is_modulo", "limits_is_bounded",
             "limits_is_iec559", "limits_traps", "limits_tinyness_before", "limits_has_denorm_loss"]
+# what the regex (validation) route must keep reading; the six remaining members (is_signed, has_*, round_style) have no regex
+REGEX_COVERED = [n for n in EXPECTED if n not in ("limits_is_signed", "limits_has_infinity", "limits_has_quiet_NaN",
+                                                  "limits_has_signaling_NaN", "limits_has_denorm", "limits_round_to_nearest")]
 FLOAT_MACROS = ("HALF_DENORM_MIN", "HALF_NRM_MIN", "HALF_MIN", "HALF_MAX", "HALF_EPSILON")
 
 
